@@ -1,7 +1,7 @@
 import Revm.Proofs.InterpTop
 import Revm.Proofs.InterpTable
 import Revm.Proofs.InterpEofTop
-import Revm.Model.EofValidate
+import Revm.Proofs.InterpEofC26
 /-! # C25 — memory-safe, terminating interpretation
 
 "For any legacy bytecode, calldata, gas limit and hardfork, and for any EOF container that passes validation,
@@ -379,18 +379,29 @@ example : AdmissibleEof
 
 /-! ### the tie to validation (C26) -/
 
-/-- the interpreter's view of a decoded container (`Bytecode::Eof(Arc<Eof>)`) -/
-def ctxOf (e : Eof.Eof) : EofCtx :=
-  { sections := e.body.codeSection
-    types := e.body.typesSection.map fun t => (t.inputs, t.outputs, t.maxStackSize)
-    data := e.body.dataSection
-    dataSize := e.header.dataSize
-    containers := e.body.containerSection }
+/-- **What C26 gives, formally (partial).** `ctxOf e` is the interpreter's view of the decoded container. For every
+container `validate_raw_eof_inner` accepts (C26: `validateRaw_deep`, `validated_in_range_partial`): at least one code
+section, as many type entries as sections, data within `isize::MAX`, every byte a byte, every sub-container decodes,
+and at EVERY instruction boundary of C25's own scan of every code section (`boundaries`, shown to visit only
+instruction starts of C26's linear decoding) `InRange` holds: the immediates lie inside the section, CALLF / JUMPF
+name an existing section, EOFCREATE / RETURNCONTRACT name an existing sub-container, every RJUMP / RJUMPI / RJUMPV
+target is a byte of the section, the instruction is not CODESIZE / CODECOPY. The two opcode tables (C25's `decode`,
+C26's `opInfo`) are compared entry by entry (`opcode_tables_agree`). Partial: this is the in-range half of `wfCtxB`;
+the rest is `ValidationGivesWf`. -/
+theorem validated_wf_partial (bs : List Nat) (t : Option EofValidate.CodeType) (e : Eof.Eof) (hbs : Eof.IsBytes bs)
+    (h : EofValidate.validateRawEofInner bs t = .ok e) :
+    0 < (ctxOf e).sections.length ∧ (ctxOf e).types.length = (ctxOf e).sections.length ∧
+    (ctxOf e).data.length ≤ Memory.ISIZE_MAX ∧
+    (∀ (k : Nat) (sec : List Nat), (ctxOf e).sections[k]? = some sec →
+      (∀ b ∈ sec, b < 256) ∧
+      ∀ i ∈ boundaries sec, i < sec.length ∧ InRange (ctxOf e).types.length (ctxOf e).containers.length sec i) ∧
+    (∀ sub ∈ (ctxOf e).containers, ∃ e', Eof.Eof.decode sub = .ok e') :=
+  validated_inRange hbs h
 
 /-- The remaining gap of the EOF half of C25: whatever `validate_raw_eof_inner` accepts is well-formed in the sense
 of `wfCtxB`. C26 proves the in-range half of it (`Props.C26.validated_in_range_partial`: opcodes EOF-enabled, immediates
 inside the section, section / container indices exist, jump targets inside the section, sub-containers decode) — see
-`validated_wf_partial` below for what follows formally. NOT proved there, hence not here: jump targets are instruction
+`validated_wf_partial` above for what follows formally. NOT proved there, hence not here: jump targets are instruction
 *starts*, no section runs off its end, the RETF / JUMPF returning discipline, data-filled sub-containers. `./check C25`
 checks the implication on every container of the lockstep stream that the real `validate_eof` accepts (`wf=1`). -/
 def ValidationGivesWf : Prop :=
